@@ -290,6 +290,90 @@ def hostile_cases(chk):
     return cases
 
 
+def interleave_policies():
+    """policies on which two different requests take different routes through shared objects: several obligations
+    per permit (checked one after the other), rules in several specificity tiers (id / attrs / type / wildcard) with
+    a relationship condition in front of the deciding rule"""
+    OB3 = [{"type": "require_mfa"}, {"type": "require_level", "attrs": {"min": 2}}, {"type": "require_terms_accept"}]
+    P = {}
+    P["il_oblig3"] = {"algorithm": "deny-overrides", "rules": [rule("p1", "permit", ("read", "write"), obligations=OB3)]}
+    P["il_oblig_mix"] = {"algorithm": "first-applicable", "rules": [
+        rule("w1", "permit", ("write",), obligations=[{"type": "require_consent", "attrs": {"key": "share"}},
+                                                      {"type": "require_reauth", "attrs": {"max_age": 300}},
+                                                      {"type": "require_mfa"}]),
+        rule("r1", "permit", ("read",), obligations=[{"type": "require_terms_accept"}, {"type": "require_captcha"},
+                                                     {"type": "require_level", "attrs": {"min": 3}}])]}
+    tiers = [
+        rule("a1", "permit", res_id="1", cond={"rel": "owner"}),
+        rule("a2", "permit", res_id="1", cond={"==": [A("subject.attrs.dept"), "ops"]}, obligations=OB3[:2]),
+        rule("b1", "deny", attrs={"dept": "fin"}),
+        rule("b2", "permit", attrs={"dept": "fin"}, cond={"rel": {"relation": "viewer", "resource": A("resource.attrs.parent")}}),
+        rule("c1", "permit", cond={"rel": "owner"}),
+        rule("c2", "permit", cond={"in": [A("context.ip"), ["10.0.0.1", "10.0.0.2", "10.0.0.9"]]}, obligations=OB3[1:]),
+        rule("d1", "deny", ("*",), rtype="*"),
+    ]
+    for algo in ("first-applicable", "deny-overrides", "permit-overrides"):
+        P["il_tiers_" + algo.split("-")[0]] = {"algorithm": algo, "rules": copy.deepcopy(tiers)}
+    P["il_set"] = {"algorithm": "first-applicable", "policies": [
+        {"id": "T", "algorithm": "permit-overrides", "rules": copy.deepcopy(tiers[:6])},
+        {"id": "O", **copy.deepcopy(P["il_oblig3"])}]}
+    return P
+
+
+def interleave_requests():
+    def rq(sid, roles, sattrs, action, rtype, rid, rattrs, ctx):
+        return {"subject": {"id": sid, "roles": roles, "attrs": sattrs}, "action": action,
+                "resource": {"type": rtype, "id": rid, "attrs": rattrs}, "context": ctx}
+    full = {"ip": "10.0.0.1", "mfa": True, "auth_level": 3, "tos_accepted": True, "captcha_passed": True,
+            "consent": {"share": True}, "reauth_age_seconds": 10}
+    return [
+        rq("alice", ["lead"], {"dept": "eng"}, "read", "doc", "1", {"dept": "eng", "parent": "folder:f1"}, dict(full)),
+        rq("bob", ["editor"], {"dept": "ops"}, "read", "doc", "1", {"dept": "eng", "parent": "folder:f1"},
+           dict(full, tos_accepted=False, auth_level=1)),
+        rq("bob", ["editor"], {"dept": "ops"}, "read", "doc", "2", {"dept": "eng"}, dict(full, mfa=False, ip="10.0.0.9")),
+        rq("carol", [], {"dept": "fin"}, "read", "doc", "3", {"dept": "fin", "parent": "folder:f1"},
+           dict(full, captcha_passed=False)),
+        rq("carol", [], {"dept": "fin"}, "write", "doc", "2", {"dept": "eng"},
+           dict(full, consent={}, reauth_age_seconds=900, tos_accepted=False)),
+        rq("dave", ["viewer"], {}, "read", "doc", "9", {"dept": "eng"}, {"ip": "6.6.6.6", "mfa": True, "auth_level": 2}),
+        rq("erin", [], {"dept": "ops"}, "delete", "img", None, {}, {}),
+    ]
+
+
+IL_COLLAB = {"roles": True, "rel": "A", "oblig": "basic", "strict": False, "cache": False}
+
+
+def interleave_cases(chk):
+    """pairs of requests for one Guard.  Quick: every policy of interleave_policies() with a rotating selection of
+    request pairs; thorough: every ordered... unordered pair, with and without a decision cache, plus the general pool."""
+    rng = chk.rng
+    P = interleave_policies()
+    reqs = interleave_requests()
+    pairs = [(i, j) for i in range(len(reqs)) for j in range(i + 1, len(reqs))]
+    cases = []
+
+    def add(name, pol, ra, rb, collab, two):
+        cases.append({"kind": "interleave", "name": name, "policy": pol, "requests": [ra, rb], "collab": collab,
+                      "seed": rng.randrange(1 << 30), "two": two})
+    for pi, (name, pol) in enumerate(P.items()):
+        if chk.tier == "quick":
+            chosen = [pairs[(5 * pi + 3 * k) % len(pairs)] for k in range(2)]
+        else:
+            chosen = pairs
+        for (i, j) in chosen:
+            add(f"{name}|{i},{j}", pol, reqs[i], reqs[j], IL_COLLAB, 6 if chk.tier == "quick" else 20)
+            if chk.tier == "thorough" and (i + j) % 3 == 0:
+                add(f"{name}|{i},{j}|cache", pol, reqs[i], reqs[j], dict(IL_COLLAB, cache=True, strict=True), 10)
+    if chk.tier == "thorough":
+        GP, greqs = policies(), requests_pool()
+        for name in ("po_mix", "oblig_level", "oblig_custom", "rel_and", "rel_dict", "target_id", "set_fa", "set_po", "roles_any"):
+            for _ in range(2):
+                i, j = rng.sample(range(len(greqs)), 2)
+                add(f"{name}|pool{i},{j}", GP[name], greqs[i], greqs[j],
+                    dict(IL_COLLAB, oblig="custom" if name == "oblig_custom" else "basic"), 10)
+    return cases
+
+
 def gather_cases(chk):
     P = policies()
     reqs = requests_pool()
@@ -1085,6 +1169,245 @@ def nested_only_request(req0, now):
         return True
     except Exception:  # noqa: BLE001
         return False
+
+
+# ---- two evaluations on one Guard from two threads, under the deterministic scheduler ---------------------------
+# State that two evaluations on one Guard can share lives on objects reachable from the Guard: attributes of
+# `self` (Guard, obligation checker), variables of an enclosing function (the compiled decision function's
+# closure), mutable module globals.  The scheduler (harness/sched.py, sys.settrace) stops a thread before every
+# line that mentions such a name, before every `with` line (lock acquisitions are seen before they happen) and
+# before every loop header (an evaluation can be suspended between two rules / obligations it iterates over).  The
+# decision itself runs in a worker thread of the evaluating thread's loop (asyncio.to_thread): that worker is traced
+# with the same thread record, so its stop points are stop points of the evaluation.
+
+IL_FILES = ["obligations", "compiler", "policy", "policyset", "engine"]
+_IL_TABLE = {}
+
+
+def il_files():
+    import rbacx.core as core
+    d = os.path.dirname(core.__file__)
+    return [os.path.join(d, n + ".py") for n in IL_FILES]
+
+
+def shared_state_lines(path):
+    """{(function name, stripped line text)} of the lines of a source file that are stop points (see above);
+    derived from the abstract syntax tree on every run, nothing is keyed to particular names."""
+    src = open(path).read()
+    lines = src.splitlines()
+    tree = ast.parse(src)
+    out = set()
+    MUT = (ast.Dict, ast.List, ast.Set, ast.Call, ast.ListComp, ast.DictComp, ast.SetComp)
+    module_mut = set()
+    for st in tree.body:
+        tg = st.targets if isinstance(st, ast.Assign) else [st.target] if isinstance(st, ast.AnnAssign) else []
+        if tg and isinstance(getattr(st, "value", None), MUT):
+            module_mut.update(t.id for t in tg if isinstance(t, ast.Name))
+
+    def bound_in(fn):
+        """names bound in the scope of fn itself (parameters, assignments, loop/with/except targets, nested defs)"""
+        names = set()
+        a = fn.args
+        for x in a.posonlyargs + a.args + a.kwonlyargs + ([a.vararg] if a.vararg else []) + ([a.kwarg] if a.kwarg else []):
+            names.add(x.arg)
+        stack = list(fn.body) if isinstance(fn.body, list) else [fn.body]
+        while stack:
+            n = stack.pop()
+            if isinstance(n, (ast.FunctionDef, ast.AsyncFunctionDef, ast.ClassDef)):
+                names.add(n.name)
+                continue
+            if isinstance(n, ast.Lambda):
+                continue
+            if isinstance(n, ast.Name) and isinstance(n.ctx, (ast.Store, ast.Del)):
+                names.add(n.id)
+            if isinstance(n, ast.ExceptHandler) and n.name:
+                names.add(n.name)
+            stack.extend(ast.iter_child_nodes(n))
+        return names
+
+    def mark(fname, lineno, stmt_line):
+        for ln in {lineno, stmt_line}:
+            if ln and 0 < ln <= len(lines):
+                out.add((fname, lines[ln - 1].strip()))
+
+    def scan(fn, fname, outer):
+        local = bound_in(fn)
+        shared = (outer - local) | (module_mut - local)
+        body = fn.body if isinstance(fn.body, list) else [fn.body]
+
+        def walk(n, stmt_line):
+            if isinstance(n, (ast.FunctionDef, ast.AsyncFunctionDef)):
+                scan(n, n.name, outer | local)
+                return
+            if isinstance(n, ast.Lambda):
+                scan(n, "<lambda>", outer | local)
+                return
+            if isinstance(n, ast.ClassDef):
+                return
+            if isinstance(n, ast.stmt):
+                stmt_line = n.lineno
+                if isinstance(n, (ast.For, ast.AsyncFor, ast.While, ast.With, ast.AsyncWith)):
+                    mark(fname, n.lineno, n.lineno)
+                if isinstance(n, (ast.Nonlocal, ast.Global)):
+                    mark(fname, n.lineno, n.lineno)
+            if isinstance(n, ast.Name) and n.id in shared:
+                mark(fname, n.lineno, stmt_line)
+            if isinstance(n, ast.Attribute) and isinstance(n.value, ast.Name) and n.value.id in ("self", "cls"):
+                mark(fname, n.lineno, stmt_line)
+            for ch in ast.iter_child_nodes(n):
+                walk(ch, stmt_line)
+        for st in body:
+            walk(st, getattr(st, "lineno", None))
+
+    def top(n):
+        for ch in ast.iter_child_nodes(n):
+            if isinstance(ch, (ast.FunctionDef, ast.AsyncFunctionDef)):
+                scan(ch, ch.name, set())
+            elif isinstance(ch, ast.ClassDef):
+                top(ch)
+    top(tree)
+    return out
+
+
+def il_filter():
+    key = tuple(il_files())
+    if key not in _IL_TABLE:
+        table = set()
+        for f in key:
+            table |= shared_state_lines(f)
+        _IL_TABLE[key] = table
+    table = _IL_TABLE[key]
+
+    def stop_filter(func, text, is_exit):
+        t = text.strip()
+        return (func, t) in table or t.startswith(("with ", "async with "))
+    return stop_filter
+
+
+class ILRun:
+    """one Guard, two threads T0/T1 each evaluating its own request on its own event loop, under a Scheduler"""
+
+    def __init__(self, case, filt):
+        import sched
+        from concurrent.futures import ThreadPoolExecutor
+        from rbacx.core.engine import Guard
+        self.col = Collab(case["collab"], "sync")
+        self.guard = Guard(copy.deepcopy(case["policy"]), **self.col.kw)
+        self.s = sched.Scheduler(il_files(), None, filt, block_timeout=3.0, hard_timeout=10.0)
+        self.out = [None, None]
+        self.grants = [0, 0]
+        for i in (0, 1):
+            self.s.add("T%d" % i, self._target(i, mk_objs(copy.deepcopy(case["requests"][i])), ThreadPoolExecutor))
+
+    def _target(self, i, objs, TPE):
+        def target():
+            t = self.s.threads["T%d" % i]
+            # the worker thread that runs the decision (asyncio.to_thread) reports to the same thread record
+            ex = TPE(max_workers=1, initializer=lambda: sys.settrace(self.s._make_tracer(t)))
+            loop = asyncio.new_event_loop()
+            try:
+                loop.set_default_executor(ex)
+                self.out[i] = dec_dict(loop.run_until_complete(self.guard._evaluate_core_async(*objs)))
+            except Exception as e:  # noqa: BLE001
+                self.out[i] = ["!raise", type(e).__name__, str(e)[:160]]
+            finally:
+                ex.shutdown(wait=True)
+                loop.close()
+        return target
+
+    def grant(self, i):
+        self.grants[i] += 1
+        return self.s.step("T%d" % i)
+
+    def run(self, segments):
+        """segments: [[thread, n grants | None = to completion], ...]; a thread that cannot go on (it waits for a
+        lock the other holds) lets the other run until it can.  Afterwards both run to completion, T0 first."""
+        s = self.s
+        problems = []
+        for th, n in list(segments) + [[0, None], [1, None]]:
+            done = 0
+            for _ in range(20000):
+                if s.is_done("T%d" % th) or (n is not None and done >= n):
+                    break
+                if s.enabled("T%d" % th):
+                    r = self.grant(th)
+                    done += 1
+                    if r == "blocked":
+                        problems.append("T%d did not reach its next stop point" % th)
+                        break
+                elif s.enabled("T%d" % (1 - th)):
+                    self.grant(1 - th)
+                else:
+                    problems.append("deadlock: neither evaluation can go on")
+                    break
+            if problems:
+                break
+        if problems:
+            s.finish()
+        s.close()
+        for n_, (res, exc) in s.results().items():
+            if exc is not None:
+                problems.append("%s raised %s: %s" % (n_, type(exc).__name__, str(exc)[:120]))
+        return {"dec": list(self.out), "grants": list(self.grants), "problems": problems}
+
+
+def il_solo(case, i):
+    from rbacx.core.engine import Guard
+    g = Guard(copy.deepcopy(case["policy"]), **Collab(case["collab"], "sync").kw)
+    objs = mk_objs(copy.deepcopy(case["requests"][i]))
+    loop = asyncio.new_event_loop()
+    try:
+        return dec_dict(loop.run_until_complete(g._evaluate_core_async(*objs)))
+    except Exception as e:  # noqa: BLE001
+        return ["!raise", type(e).__name__, str(e)[:160]]
+    finally:
+        loop.close()
+
+
+def il_schedules(n0, n1, seed, two):
+    """every schedule with exactly one pre-emption: T0 is granted k steps (0 < k < n0), T1 runs to completion, T0
+    finishes — and the same with the threads exchanged; the two sequential orders; `two` schedules with two
+    pre-emptions drawn with the given seed."""
+    import random
+    sch = [[[0, None], [1, None]], [[1, None], [0, None]]]
+    sch += [[[0, k], [1, None]] for k in range(1, n0)]
+    sch += [[[1, k], [0, None]] for k in range(1, n1)]
+    rng = random.Random(seed)
+    for _ in range(two if n0 > 1 and n1 > 1 else 0):
+        a = rng.randrange(2)
+        na, nb = (n0, n1) if a == 0 else (n1, n0)
+        sch.append([[a, rng.randrange(1, na)], [1 - a, rng.randrange(1, nb)], [a, None]])
+    return sch
+
+
+def run_interleave(case, T):
+    filt = il_filter()
+    solo = [il_solo(case, 0), il_solo(case, 1)]
+    out = {"solo": solo, "fail": [], "nfail": 0, "problems": []}
+    if case.get("sched") is not None:
+        scheds = [case["sched"]]
+    else:
+        base = ILRun(case, filt).run([[0, None], [1, None]])
+        out["steps"] = base["grants"]
+        out["problems"] += base["problems"]
+        scheds = il_schedules(base["grants"][0], base["grants"][1], case.get("seed", 0), case.get("two", 0))
+    t0 = time.time()
+    budget = float(case.get("budget") or 120.0)
+    out["runs"] = 0
+    for sc in scheds:
+        if time.time() - t0 > budget:
+            out["problems"].append("time budget of %.0fs used up after %d of %d schedules" % (budget, out["runs"], len(scheds)))
+            break
+        r = ILRun(case, filt).run(sc)
+        out["runs"] += 1
+        if r["problems"]:
+            out["problems"] += ["%s: %s" % (json.dumps(sc), p) for p in r["problems"]][:3]
+        bad = [i for i in (0, 1) if r["dec"][i] != solo[i]]
+        if bad:
+            out["nfail"] += 1
+            if len(out["fail"]) < 4:
+                out["fail"].append({"sched": sc, "dec": r["dec"], "differs": bad})
+    return out
 
 
 def run_gather(case, T):
